@@ -32,7 +32,8 @@ ANCHORS = ['recursiveloader:ManifestRecursiveLoader.save_manifests',
            'manifest:ManifestFile.dump', 'compression:open_compressed_file',
            'cli:UpdateCommand.__call__']
 REQUIRED = ['recursiveloader:ManifestRecursiveLoader.save_manifests', 'idem_checked',
-            'canon_pairs_compared', 'cli_idem_checked', 'same_loader_idem_checked']
+            'canon_pairs_compared', 'cli_idem_checked', 'same_loader_idem_checked',
+            'recreate_pairs_compared']
 ASSUMPTIONS = ['forced rewrites (--force-rewrite) are excluded from the idempotence '
                'half: rewriting is what was asked for',
                'canonical half: at most one Manifest per directory, no Manifest aliased '
@@ -40,13 +41,14 @@ ASSUMPTIONS = ['forced rewrites (--force-rewrite) are excluded from the idempote
 
 PRIOR = ['content', 'size', 'delete', 'stray', 'm-digest', 'm-drop', 'm-ghost',
          'm-compatible-dup', 'm-chain', 'unreg-valid', 'unreg-stale', 'unreg-invalid',
-         'm-dist-twin']
+         'm-dist-twin', 'm-dup-ignore']
 N = {'quick': 400, 'thorough': 15000}
 PER_UNIT = 8
 
 
 def units(tier, seed):
-    return [{'k': 'gen', 'i': i, 'n': PER_UNIT} for i in range(N[tier] // PER_UNIT)]
+    return [{'k': 'gen', 'i': i, 'n': PER_UNIT} for i in range(N[tier] // PER_UNIT)] + \
+        [{'k': 'recreate', 'i': i, 'n': 4} for i in range(6 if tier == 'quick' else 200)]
 
 
 def setup_worker(ctx):
@@ -69,9 +71,9 @@ def manifest_snapshot(root):
     return snap
 
 
-def cli_update(root, opt, extra=()):
+def cli_update(root, opt, extra=(), command='update'):
     from gemato import cli as gcli
-    argv = ['gemato', 'update', '--hashes', ' '.join(opt['hashes'])] + list(extra)
+    argv = ['gemato', command, '--hashes', ' '.join(opt['hashes'])] + list(extra)
     if opt['watermark'] is not None:
         argv += ['-c', str(opt['watermark']), '-C', opt['format']]
     argv.append(root)
@@ -238,6 +240,8 @@ def judge_canon(ctx, d, case, skel, layout, ops):
 
 
 def run_unit(u, ctx):
+    if u['k'] == 'recreate':
+        return run_recreate(u, ctx)
     for j in range(u['n']):
         rng = common.rng_for(ctx.seed, ID, u['i'], j)
         with common.Scratch('vf-c12-') as d:
@@ -272,7 +276,73 @@ def run_unit(u, ctx):
                             'mode': case['mode']}, 'c12')
 
 
+def exec_recreate(ctx, case):
+    """The canonical clause across histories: `gemato create -p P` on a repository
+    after an edit must write the same Manifests whether or not the repository was
+    already created once before the edit (create on an existing tree is an update
+    that may also create)."""
+    from vf.gen import repo as grepo
+    prof = case['profile']
+    with common.Scratch('vf-c12r-') as d:
+        results = []
+        for variant in ('edit-then-create', 'create-edit-create'):
+            root = os.path.join(d, variant)
+            gtree.materialize(case['tree'], root)
+            cmds = []
+            if variant == 'create-edit-create':
+                cmds.append('create')
+            cmds.append('EDIT')
+            cmds.append('create')
+            ok = True
+            for c in cmds:
+                if c == 'EDIT':
+                    for rel, text in case['edits']:
+                        os.makedirs(os.path.dirname(os.path.join(root, rel)), exist_ok=True)
+                        with open(os.path.join(root, rel), 'w') as f:
+                            f.write(text)
+                    continue
+                rc = cli_update(root, {'hashes': case['hashes'], 'watermark': None,
+                                       'format': 'gz', 'force': False},
+                                ['-p', prof], command='create')
+                if rc != 0:
+                    ok = False
+                    break
+            results.append(None if not ok else
+                           {k: v[0] for k, v in manifest_snapshot(root).items()})
+        ctx.case(sig=('recreate', prof), case=case,
+                 nontrivial=all(r is not None for r in results), klass='recreate')
+        if any(r is None for r in results):
+            ctx.count('recreate_failed')
+            return
+        ctx.count('recreate_pairs_compared')
+        a, b = results
+        if a != b:
+            diff = sorted(k for k in set(a) | set(b) if a.get(k) != b.get(k))
+            ctx.violation('not-canonical:create-on-existing-tree', 'Manifest %r differs '
+                          'between "edit, create" and "create, edit, create" (profile %s)'
+                          % (diff[0], prof), case,
+                          {'a': repr(a.get(diff[0]))[:500], 'b': repr(b.get(diff[0]))[:500]})
+
+
+def run_recreate(u, ctx):
+    from vf.gen import repo as grepo
+    for j in range(u['n']):
+        rng = common.rng_for(ctx.seed, ID, 'recreate', u['i'], j)
+        tree, cats = grepo.gen_repo(rng, portable=True, with_ignored=rng.random() < 0.5)
+        files = sorted(n['p'] for n in tree['nodes'] if n['t'] == 'f')
+        edits = [('header.txt', 'added at the top %d\n' % rng.randrange(1000))]
+        if files:
+            f = rng.choice(files)
+            edits.append((f, 'edited %d\n' % rng.randrange(1000)))
+        case = {'kind': 'recreate', 'tree': tree, 'edits': edits,
+                'profile': rng.choice(['ebuild', 'old-ebuild']),
+                'hashes': rng.choice([['SHA256'], ['BLAKE2B', 'SHA512']])}
+        exec_recreate(ctx, case)
+
+
 def replay(case, ctx):
+    if case.get('kind') == 'recreate':
+        return exec_recreate(ctx, case)
     with common.Scratch('vf-c12-') as d:
         root = os.path.join(d, 't')
         scenario.rebuild(root, case)
